@@ -9,8 +9,8 @@ The code has defects, so the full statements `RelInverse`, `RelIsRef`, `RelParen
 `RelBoundaries` below are FALSE for the code as written: each is refuted by a kernel-checked witness
 on valid IRIs, and carried as a `_partial` theorem under the decidable side condition `cleanCase`
 (defined next to the model; the driver evaluates it on every differential case as `m.clean`).
-`cleanCase` looks at the returned reference; `rel_path_input_partial` and `rel_same_doc_inverse_partial` (last
-section) state the round trip under hypotheses on the INPUTS only.  The clause "same-document IRIs are always
+`cleanCase` looks at the returned reference; `rel_input_partial` (last section; regions S, P, X, E) states the whole
+property (`Correct`) under hypotheses on the INPUTS only, and each hypothesis is shown necessary by a witness.  The clause "same-document IRIs are always
 relativised" (`RelSameDoc`) holds in full for UTF-8 inputs (`rel_same_doc_some`), and `RelBoundaries` holds for
 UTF-8 inputs except on one base shape (`rel_boundaries_utf8_partial`).
 -/
@@ -20,6 +20,7 @@ import SophiaModel.Gen.Regexes
 import SophiaProofs.Lemmas.RelativizePath
 import SophiaProofs.Lemmas.RelativizeUtf8
 import SophiaProofs.Lemmas.RelativizeInput
+import SophiaProofs.Lemmas.RelativizeStrings
 
 namespace SophiaProofs.C17
 open SophiaModel SophiaModel.Rfc3986 SophiaModel.Relativize SophiaProofs.Relativize
@@ -315,98 +316,150 @@ example : cleanCase (s "http://a/b") 3 (s "http://a/bc") = false := by decide
 
 /-! ### INPUT-side theorems (hypotheses on base, IRI and limit only) -/
 
-private theorem lcp_self_append (x a b : Octets) : lcp (x ++ a) (x ++ b) ≥ x.length := by
-  rw [lcp_append_left]; omega
+/-- what the property demands of `relativize (new base n) iri`: a reference is returned, RFC 3986 5.2 resolution of it
+against the base gives back the IRI, it has neither scheme nor authority, and it starts with at most `n` '..' segments -/
+def Correct (base : Octets) (n : Nat) (iri : Octets) : Prop :=
+  ∃ ins t, relativize (new base n) iri = .some ins t ∧ resolve base (ins.str ++ t) = iri ∧
+    (split (ins.str ++ t)).scheme = none ∧ (split (ins.str ++ t)).authority = none ∧
+    countDotDot (ins.str ++ t) ≤ n
 
-/-- same document, input-only: when the IRI has the scheme, authority and path of the base and either the same query
-or the base has no query, the reference returned resolves back to the IRI -/
+/-- the hypothesis `utf8Shaped 0 _` of the theorems below is satisfied by the octets of EVERY string: it excludes
+nothing that can be a Rust `&str` / Lean `String` (proved from core's description of `String.utf8EncodeChar`) -/
+theorem utf8_shape_of_every_string (x : String) : utf8Shaped 0 (ofUtf8 x) = true :=
+  utf8Shaped_ofUtf8 x
+
+example : ofUtf8 "a€𝄞" = [Char.ofNat 0x61, Char.ofNat 0xE2, Char.ofNat 0x82, Char.ofNat 0xAC,
+    Char.ofNat 0xF0, Char.ofNat 0x9D, Char.ofNat 0x84, Char.ofNat 0x9E] := by decide
+
+/-- (S) same document from the inputs: the IRI has the scheme, authority and path of the base and either the same
+query, or the base has no query, or the IRI has a query that does not extend the base's -/
 theorem rel_same_doc_inverse_partial (base : Octets) (n : Nat) (iri : Octets)
-    (hs : (split base).scheme.isSome) (hb : utf8Shaped 0 base = true) (hi : utf8Shaped 0 iri = true)
-    (h1 : (split iri).scheme = (split base).scheme) (h2 : (split iri).authority = (split base).authority)
-    (h3 : (split iri).path = (split base).path)
-    (hq : (split iri).query = (split base).query ∨ (split base).query = none) :
-    ∃ t, relativize (new base n) iri = .some .nothing t ∧ resolve base t = iri := by
+    (hb : utf8Shaped 0 base = true) (hi : utf8Shaped 0 iri = true) (hc : sameDocInputCase base n iri = true) :
+    Correct base n iri := by
+  unfold sameDocInputCase at hc
+  simp only [Bool.and_eq_true, Bool.or_eq_true, beq_iff_eq, decide_eq_true_eq, Option.isNone_iff_eq_none] at hc
+  obtain ⟨⟨⟨⟨hs, h1⟩, h2⟩, h3⟩, hq⟩ := hc
   obtain ⟨t, ht⟩ := same_doc_some (n := n) hs hb hi h1 h2 h3
-  refine ⟨t, ht, ?_⟩
-  have hpe := new_path_end base n hs
-  have hqe := new_query_end base n hs
-  have hd := base_decomp base
-  have hdi := base_decomp iri
-  have hpre : preStr (split iri) = preStr (split base) := by
-    simp [preStr, schemeStr, authStr, h1, h2]
-  rw [hpre, h3] at hdi
-  have hc : cleanCase base n iri = true := by
-    unfold cleanCase
-    simp only [ht, hs, Bool.true_and]
-    rcases hq with hq | hq
-    · -- same query: the common prefix reaches query_end, what follows is the IRI's fragment
-      have hQ : queryStr (split iri) = queryStr (split base) := by simp [queryStr, hq]
-      rw [hQ] at hdi
-      have hl : lcp base iri ≥ (new base n).query_end := by
-        rw [hqe]; conv => lhs; rw [hd, hdi]
-        exact lcp_self_append _ _ _
-      have hdrop : iri.drop (new base n).query_end = fragStr (split iri) := by
-        rw [hqe]; conv => lhs; rw [hdi]
-        rw [List.drop_left]
-      have hF : ((iri.drop (new base n).query_end).isEmpty || startsWith '#' (iri.drop (new base n).query_end)) = true := by
-        rw [hdrop]; unfold fragStr fragO
-        cases (split iri).fragment <;> simp [startsWith]
-      simp [hl, hF]
-    · -- the base has no query: query_end = path_end
-      have hQb : queryStr (split base) = [] := by simp [queryStr, queryO, hq]
-      have hqp : (new base n).query_end = (new base n).path_end := by rw [hqe, hpe, hQb]; simp
-      have hl : lcp base iri ≥ (new base n).path_end := by
-        rw [hpe]; conv => lhs; rw [hd, hdi]
-        rw [List.append_assoc, List.append_assoc _ _ (fragStr (split iri))]
-        exact lcp_self_append _ _ _
-      have hdrop : iri.drop (new base n).path_end = queryStr (split iri) ++ fragStr (split iri) := by
-        rw [hpe]; conv => lhs; rw [hdi]
-        rw [List.append_assoc, List.drop_left]
-      cases hqi : (split iri).query with
-      | none =>
-        have hF : ((iri.drop (new base n).query_end).isEmpty || startsWith '#' (iri.drop (new base n).query_end)) = true := by
-          rw [hqp, hdrop]; unfold queryStr fragStr queryO fragO
-          rw [hqi]
-          cases (split iri).fragment <;> simp [startsWith]
-        have hl' : lcp base iri ≥ (new base n).query_end := by rw [hqp]; exact hl
-        simp [hl', hF]
-      | some q =>
-        have hQ : startsWith '?' (iri.drop (new base n).path_end) = true := by
-          rw [hdrop]; unfold queryStr queryO; rw [hqi]; simp [startsWith]
-        simp [hl, hQ, hq]
-  exact (rel_partial_all base n iri .nothing t ht hc).1
+  have hq' : (split iri).query = (split base).query ∨ (split base).query = none ∨
+      ((split iri).query.isSome ∧ lcp base iri < (new base n).query_end) := by
+    rcases hq with (hq | hq) | hq
+    · exact Or.inl hq
+    · exact Or.inr (Or.inl hq)
+    · exact Or.inr (Or.inr hq)
+  have hcl := same_doc_clean hs h1 h2 h3 hq' ht
+  obtain ⟨r1, r2, r3, r4⟩ := rel_partial_all base n iri .nothing t ht hcl
+  exact ⟨.nothing, t, ht, r1, r2, r3, by rw [r4]; simp [insUps]⟩
 
+example : sameDocInputCase (s "http://a/b?q#f") 0 (s "http://a/b?q#g") = true ∧
+    sameDocInputCase (s "http://a/b#f") 3 (s "http://a/b?r") = true ∧
+    sameDocInputCase (s "http://a/b?q") 0 (s "http://a/b?r#g") = true := by decide
 
-example : let b := s "http://a/b?q#f"
-    (split b).scheme.isSome ∧ utf8Shaped 0 b = true ∧ (split (s "http://a/b?q#g")).query = (split b).query ∧
-      (split (s "http://a/b?q#g")).path = (split b).path ∧
-      relativize (new b 0) (s "http://a/b?q#g") = .some .nothing (s "#g") := by decide
-
-/-- the path branches at full strength over an INPUT-side region (`pathInputCase`: nothing in the hypotheses refers to
-what `relativize` returns): for UTF-8 inputs, a base with a rooted path free of dot segments, a common byte prefix that
-ends strictly inside the base path at or after `pseudoroot` (the IRI is inside the deepest directory reachable with
-`parents` steps), and an IRI whose remaining path is plain (`cleanSuffixes`: every suffix starting right after a '/'
-of the common prefix has no dot segment and is empty or starts with a non-empty segment without ':') -
-a reference IS returned, RFC 3986 resolution of it gives back the IRI, it has neither scheme nor authority, and it
-starts with at most `parents` '..' segments. -/
+/-- (P) the path branches over an INPUT-side region (`pathInputCase`): for UTF-8 inputs, a base path free of dot
+segments with `pseudoroot` strictly inside it (every rooted path; rootless ones unless '../' climbs to the very top), a
+common byte prefix that ends inside the base path (strictly, or at its end when the base has a query and the IRI's
+path goes on) at or after `pseudoroot` (the IRI is inside the deepest directory reachable with `parents` steps), and an
+IRI whose remaining path is plain (`cleanSuffixes` from `pseudoroot` on: every suffix starting right after a '/' of the
+common prefix has no dot segment and is empty or starts with a non-empty segment without ':'). -/
 theorem rel_path_input_partial (base : Octets) (n : Nat) (iri : Octets)
     (hb : utf8Shaped 0 base = true) (hi : utf8Shaped 0 iri = true) (hc : pathInputCase base n iri = true) :
-    ∃ ins t, relativize (new base n) iri = .some ins t ∧ resolve base (ins.str ++ t) = iri ∧
-      (split (ins.str ++ t)).scheme = none ∧ (split (ins.str ++ t)).authority = none ∧
-      countDotDot (ins.str ++ t) ≤ n := by
+    Correct base n iri := by
   unfold pathInputCase at hc
-  simp only [Bool.and_eq_true, decide_eq_true_eq] at hc
-  obtain ⟨⟨⟨⟨⟨hs, hroot⟩, hbd⟩, hl0⟩, hl1⟩, hcl⟩ := hc
-  exact inverse_path_input hs hb hi hroot hbd hl0 hl1 hcl
+  simp only [Bool.and_eq_true, Bool.or_eq_true, decide_eq_true_eq, Bool.not_eq_true'] at hc
+  obtain ⟨⟨⟨⟨⟨⟨⟨hs, hbd⟩, hpr⟩, hl0⟩, hl1⟩, hl2⟩, hl3⟩, hcl⟩ := hc
+  rw [pathBegin_eq hs] at hpr
+  exact inverse_path_input hs hb hi hbd hpr hl0 hl1 hl2 hl3 hcl
 
--- the region is inhabited ('../' inserted, './' inserted, plain tail, multi-byte divergence) and excludes the refuted shapes
+-- the region is inhabited ('../' inserted, './' inserted, plain tail, rootless base) and excludes the refuted shapes
 example : pathInputCase (s "http://a/b/c/d?q#f") 2 (s "http://a/b/x/y?z") = true ∧
     pathInputCase (s "http://a/b/c/d") 0 (s "http://a/b/c/") = true ∧
     pathInputCase (s "http://a/b/c/d") 0 (s "http://a/b/c/e/f#g") = true ∧
-    pathInputCase (s "x:/a/b/c") 1 (s "x:/a/y") = true := by decide
+    pathInputCase (s "x:/a/b/c") 1 (s "x:/a/y") = true ∧
+    pathInputCase (s "x-ample:bb/c/d") 1 (s "x-ample:bb/P1?Q2") = true ∧
+    pathInputCase (s "http://a/b/c?q") 1 (s "http://a/b/c/d") = true ∧
+    pathInputCase (s "http://a//b/c/d") 1 (s "http://a//b/c/x") = true := by decide
 example : pathInputCase (s "http://a/b/c") 0 (s "http://a/b/x:y") = false ∧
     pathInputCase (s "http://a/b/d") 0 (s "http://a/b//c") = false ∧
     pathInputCase (s "http://a/b/c") 0 (s "http://a/b/../x") = false ∧
-    pathInputCase (s "http://a/b/c/d") 1 (s "http://a/x") = false := by decide
+    pathInputCase (s "http://a/b/c/d") 1 (s "http://a/x") = false ∧
+    pathInputCase (s "x-ample:bb/c/d") 2 (s "x-ample:P2") = false := by decide
+
+/-- a rooted base path always has `pseudoroot` strictly inside it (so (P) needs nothing about `new` for such bases) -/
+theorem rel_pseudoroot_inside_rooted (base : Octets) (n : Nat) (hs : (split base).scheme.isSome)
+    (hroot : startsSlash (split base).path = true) : (new base n).pseudoroot > pathBegin (split base) := by
+  rw [pathBegin_eq hs]; exact pseudoroot_gt_of_rooted n hs hroot
+
+/-- (X) a query-less directory base extended by a clean non-empty relative path -/
+theorem rel_extension_input_partial (base : Octets) (n : Nat) (iri : Octets)
+    (hb : utf8Shaped 0 base = true) (hi : utf8Shaped 0 iri = true) (hc : extInputCase base n iri = true) :
+    Correct base n iri :=
+  inverse_extension_input hb hi hc
+
+example : extInputCase (s "http://a/b/") 0 (s "http://a/b/c") = true ∧
+    extInputCase (s "http://a/b/#f") 2 (s "http://a/b/c/d?q") = true ∧
+    extInputCase (s "http://a/b/") 0 (s "http://a/b/x:y") = false ∧
+    extInputCase (s "http://a/b") 0 (s "http://a/bc") = false := by decide
+
+/-- (E) empty base path, IRI continuing with an absolute path -/
+theorem rel_empty_path_input_partial (base : Octets) (n : Nat) (iri : Octets)
+    (hb : utf8Shaped 0 base = true) (hi : utf8Shaped 0 iri = true) (hc : emptyPathInputCase base n iri = true) :
+    Correct base n iri :=
+  inverse_empty_path_input hb hi hc
+
+example : emptyPathInputCase (s "http://a?q") 0 (s "http://a/b/c?r") = true ∧
+    emptyPathInputCase (s "http://a") 0 (s "http://a/b") = true ∧
+    emptyPathInputCase (s "http://a") 0 (s "http://a//c") = false ∧
+    emptyPathInputCase (s "http://a") 0 (s "http://ab") = false := by decide
+
+/-- the property on the union of the input-side regions: hypotheses on (base, limit, IRI) only -/
+theorem rel_input_partial (base : Octets) (n : Nat) (iri : Octets)
+    (hb : utf8Shaped 0 base = true) (hi : utf8Shaped 0 iri = true) (hc : inputCase base n iri = true) :
+    Correct base n iri := by
+  unfold inputCase at hc
+  simp only [Bool.or_eq_true] at hc
+  rcases hc with ((h | h) | h) | h
+  · exact rel_same_doc_inverse_partial base n iri hb hi h
+  · exact rel_path_input_partial base n iri hb hi h
+  · exact rel_extension_input_partial base n iri hb hi h
+  · exact rel_empty_path_input_partial base n iri hb hi h
+
+/-! ### the hypotheses are needed: dropping any of them admits a kernel-checked counterexample
+(each witness pair is also in the harness' fixed corpus, i.e. replayed on the implementation on every run, except the
+last one, which is no UTF-8 and cannot be a Rust string) -/
+
+/-- (P) without "base path free of dot segments": `http://a/b/../c/d` / `http://a/b/../c/x` gives "x", which RFC 3986
+resolves to `http://a/c/x` -/
+theorem rel_input_needs_dotfree_base : ¬ Correct (s "http://a/b/../c/d") 0 (s "http://a/b/../c/x") := by
+  intro ⟨ins, t, h, hr, _⟩
+  have : relativize (new (s "http://a/b/../c/d") 0) (s "http://a/b/../c/x") = .some .nothing (s "x") := by decide
+  rw [this] at h; injection h with h1 h2; subst h1; subst h2
+  exact absurd hr (by decide)
+
+/-- (P) without "`pseudoroot` strictly inside the path" (rootless base, '../' to the very top): `x-ample:ab/c/d` /
+`x-ample:x` gives "../../x", which RFC 3986 5.2.4 resolves to `x-ample:/x` -/
+theorem rel_input_needs_pseudoroot_inside : ¬ Correct (s "x-ample:ab/c/d") 2 (s "x-ample:x") := by
+  intro ⟨ins, t, h, hr, _⟩
+  have : relativize (new (s "x-ample:ab/c/d") 2) (s "x-ample:x") = .some (.up 2) (s "x") := by decide
+  rw [this] at h; injection h with h1 h2; subst h1; subst h2
+  exact absurd hr (by decide)
+
+/-- (P) without "common prefix at or after `pseudoroot`": nothing is returned -/
+theorem rel_input_needs_inside_pseudoroot : ¬ Correct (s "http://a/b/c/d") 1 (s "http://a/x") := by
+  intro ⟨ins, t, h, _⟩
+  have : relativize (new (s "http://a/b/c/d") 1) (s "http://a/x") = .none := by decide
+  rw [this] at h; cases h
+
+/-- (S) without the query condition (base with a query, IRI without): "" keeps the base's query -/
+theorem rel_input_needs_query_condition : ¬ Correct (s "http://a/b?q") 3 (s "http://a/b") := by
+  intro ⟨ins, t, h, hr, _⟩
+  have : relativize (new (s "http://a/b?q") 3) (s "http://a/b") = .some .nothing [] := by decide
+  rw [this] at h; injection h with h1 h2; subst h1; subst h2
+  exact absurd hr (by decide)
+
+/-- the UTF-8 shape of the IRI is needed for `rel_boundaries_utf8_partial` (a continuation octet right after a '/'
+of the common prefix; the base is fine and is not of the excluded shape) -/
+theorem rel_boundaries_needs_utf8_shape :
+    utf8Shaped 0 (s "http://a/b/c") = true ∧ authEndsMultibyteNoPath (s "http://a/b/c") = false ∧
+    utf8Shaped 0 (s "http://a/b/" ++ [Char.ofNat 0xA9]) = false ∧
+    relativize (new (s "http://a/b/c") 0) (s "http://a/b/" ++ [Char.ofNat 0xA9]) = .panic := by decide
 
 end SophiaProofs.C17
